@@ -36,6 +36,15 @@ def handle : List String → String
     let o := rxRewrite a
     let sg := match a.group with | some g => g | none => if (a.params.getD []).contains 'e' then 1 else 0
     s!"indomain={encBool a.inDomain}\timpl_slice={o.sliceFrom}\timpl_group={o.group}\timpl_params={encStr o.params}\timpl_index={genIndex o.index}\tspec_from={a.position.getD 1}\tspec_group={sg}\tspec_occ={a.occurrence.getD 1}\tfinding={if a.ok then "-" else "C10/regexp-substr-e-default-group"}"
+  | ["rr", pat, hasRepl, pos, occ, params] =>
+    let node : Option StrNode := match pat with | "lit" => some .lit | "raw" => some .raw | "expr" => some .expr | _ => none
+    match node with
+    | none => "bad-op"
+    | some n =>
+      let a : RrArgs := { hasReplacement := decBool hasRepl, position := decOptNat pos, occurrence := decOptNat occ, params := decOptStr params }
+      let out := match rrRule (dollarQuotedString n) a with
+        | .rewritten d => s!"rewritten:{encBool d}" | .rejected => "rejected" | .untouched => "untouched"
+      s!"impl={out}\tdoc_all={encBool a.docIsReplaceAll}"
   | ["tonum", fn, args] =>
     match (decList args).mapM parseNArg with
     | none => "bad-op"
